@@ -38,7 +38,61 @@ def import_eao():
     eao = eaopack
     MODS = (eaopack.assets, eaopack.portfolio, eaopack.optimization, eaopack.io, eaopack.basic_classes,
             eaopack.stoch_lin_prog, eaopack.serialization)
+    _record_constructor_arguments()
     return eao
+
+
+# what the harness passed to the constructors of the asset classes (outermost call), kept OUTSIDE the objects: the reference model reads the
+# user's inputs from here, not from the attributes an __init__ may have stored differently.  (object id -> (object, arguments))
+CTOR_ARGS = {}
+
+
+def ctor_arg(obj, name, default=None):
+    rec = CTOR_ARGS.get(id(obj))
+    if rec is not None and rec[0] is obj and name in rec[1]:
+        return rec[1][name]
+    return getattr(obj, name, default)
+
+
+def _record_constructor_arguments():
+    import inspect
+    base = eao.assets.Asset
+    depth = {}
+    classes = [c for m in (eao.assets, eao.portfolio) for c in vars(m).values() if isinstance(c, type) and issubclass(c, base)]
+    for cls in set(classes):
+        orig = cls.__dict__.get('__init__')
+        if orig is None or getattr(orig, '_vf_wrapped', False):
+            continue
+        sig = inspect.signature(orig)
+
+        def mk(orig, sig):
+            def init(self, *a, **k):
+                outer = depth.get(id(self), 0) == 0
+                depth[id(self)] = depth.get(id(self), 0) + 1
+                args = None
+                if outer:
+                    try:
+                        ba = sig.bind(self, *a, **k)
+                        ba.apply_defaults()
+                        args = dict(ba.arguments)
+                        args.pop('self', None)
+                        for extra in ('args', 'kwargs'):
+                            if isinstance(args.get(extra), dict):
+                                args.update(args.pop(extra))
+                    except TypeError:
+                        args = None
+                try:
+                    orig(self, *a, **k)
+                finally:
+                    depth[id(self)] -= 1
+                    if outer:
+                        depth.pop(id(self), None)
+                        if args is not None:
+                            CTOR_ARGS[id(self)] = (self, args)
+            init._vf_wrapped = True
+            init.__wrapped__ = orig
+            return init
+        cls.__init__ = mk(orig, sig)
 
 
 def _print_guard_lines(mod):
